@@ -300,6 +300,7 @@ func init() {
 		return nil
 	})
 	H("Pause", func(fr *frame, args []value) value { return nil })
+	H("MarkGoroutines", func(fr *frame, args []value) value { return nil })
 	H("SymbolicTxns", func(fr *frame, args []value) value {
 		fr.i.path.sched.txnPoints = true
 		return nil
